@@ -40,6 +40,7 @@ def isAsciiLetter (c : Char) : Bool :=
 def showLpErr : LineParser.Err → String
   | .extenderWithoutCommand l => s!"err extender {l}"
   | .exitCodeTwice l => s!"err exit-code-twice {l}"
+  | .exitCodeOutOfRange l => s!"err exit-code-out-of-range {l}"
   | .expectationParse l => s!"err expectation {l}"
   | .noShellExpression l => s!"err no-shell-expression {l}"
   | .exitCodeWithoutCommand l => s!"err exit-code-without-command {l}"
